@@ -89,6 +89,11 @@ CHECKS = {
     note="Trusted: TLC, drv_simd.cpp and simd_trace_ctx.hpp (element-wise lane semantics of the tracing context), the scalar evaluator as reference (bound to the reference semantics by C07/C08/C10). SIMDe AVX-512 and column-major operands are not driven. Four input classes are known findings.",
     technique="TLA+ loop model checked by TLC; real SIMD evaluators driven through a tracing context and real contexts; trace validation (result identity + access ranges) by TLC",
     design="5/C12"),
+ "C11": dict(
+    text="StaticInfo.tla defines soundness of the five compile-time traits against a run-time shape and a per-axis abstract domain (Const n | Clip m | Dyn) with concretisation and abstract transfer functions for transpose, flatten, reduce and broadcast; TLC checks soundness of the traits and of every transfer function on the bounded domain. The driver instantiates view TYPES from leaves of six static-knowledge kinds and programs with compile-time-constant or run-time arguments, logs the traits of the type and of the type eval() chose next to shape()/dim()/size() and all elements of OBJECTS for every run-time shape the leaf admits, and TraceStatic.tla validates soundness and completeness of the evaluation.",
+    note="Trusted: TLC, StaticInfo.tla, drv_static.cpp. Clipped-shape leaves compose only with flatten/reshape (compile-time API limitation); depth-3 types are not generated; the clamp/capacity hooks of the design are replaced by the end-to-end check 'eval returned every element'.",
+    technique="TLA+ abstract-interpretation model checked by TLC; generated view types instantiated over every admitted run-time shape; trace validation by TLC",
+    design="5/C11"),
 }
 
 NOT_APPLICABLE = {}
